@@ -17,8 +17,12 @@ pub enum WriteSchedule {
     Interrupting { chunks: Vec<usize>, every: usize },
     /// accept everything, fail on flush
     FlushFails,
+    /// accept everything, fail on flush with `ErrorKind::Interrupted` (nobody retries a flush)
+    FlushInterrupted,
     /// reject exactly one write call (the one that would cross `k` accepted bytes), then accept everything
     FailOnce { k: usize },
+    /// like `FailOnce`, with a "try again later" error kind (WouldBlock / TimedOut)
+    FailOnceKind { k: usize, kind: io::ErrorKind },
 }
 
 pub struct FaultyWriter {
@@ -48,7 +52,7 @@ impl Write for FaultyWriter {
             return Ok(0);
         }
         match self.sched.clone() {
-            WriteSchedule::Clean | WriteSchedule::FlushFails => {
+            WriteSchedule::Clean | WriteSchedule::FlushFails | WriteSchedule::FlushInterrupted => {
                 self.push(buf);
                 Ok(buf.len())
             }
@@ -60,6 +64,23 @@ impl Write for FaultyWriter {
                 let n = room.min(buf.len());
                 self.push(&buf[..n]);
                 Ok(n)
+            }
+            WriteSchedule::FailOnceKind { k, kind } => {
+                if !self.failed_once && self.accepted.len() + buf.len() > k {
+                    self.failed_once = true;
+                    let room = k.saturating_sub(self.accepted.len());
+                    if room == 0 {
+                        return Err(io::Error::new(kind, "injected one-shot write failure"));
+                    }
+                    self.push(&buf[..room]);
+                    return Ok(room);
+                }
+                if self.failed_once && self.accepted.len() == k && !self.interrupted_next {
+                    self.interrupted_next = true;
+                    return Err(io::Error::new(kind, "injected one-shot write failure"));
+                }
+                self.push(buf);
+                Ok(buf.len())
             }
             WriteSchedule::FailOnce { k } => {
                 if !self.failed_once && self.accepted.len() + buf.len() > k {
@@ -108,6 +129,7 @@ impl Write for FaultyWriter {
         self.flushes += 1;
         match self.sched {
             WriteSchedule::FlushFails => Err(io::Error::new(io::ErrorKind::Other, "injected flush failure")),
+            WriteSchedule::FlushInterrupted => Err(io::Error::new(io::ErrorKind::Interrupted, "injected interrupted flush")),
             _ => Ok(()),
         }
     }
